@@ -53,6 +53,10 @@ def own_error_forms():
                 "(when-let ((a 1) (b %s)) (car a))" % x, "(if-let* ((a 1) (b %s)) (car a))" % x,
                 "(while-let ((a %s)) (car a))" % x.replace("'(1)", "nil").replace("(list 1 2)", "nil").replace("'(1 . 2)", "nil").replace("5", "nil").replace("t", "nil").replace("2.nil", "nil").replace("\"s\"", "nil").replace("-1", "nil").replace(":k", "nil").replace("'q", "nil"),
                 "(eval '(let ((a 1)) (dotimes (b %s) b)))" % x]
+    out += ["(progn (defun stub (a &optional b &rest c)) (stub 1 2 3))", "(progn (defun stub (a b)) (list (stub 1 2) (stub 3 4)))", "(funcall (lambda (a b c)) 1 2 3)",
+            "(mapcar (lambda (a)) '(1 2 3))", "(progn (defmacro ms (a b)) (ms 1 2))", "(progn (defun stub (a) \"doc only\") (stub 5))", "(progn (defun stub (a) (declare (x))) (stub 5))",
+            "(seq-reduce (lambda (a b)) '(1 2) 0)", "(sort (list 2 1) (lambda (a b)))", "(progn (defun stub (&rest c)) (stub 1 2))", "(progn (defun stub (&optional a)) (stub))",
+            "(funcall (lambda (a)) (car 5))", "(progn (defun stub (a b)) (stub 1))", "(let ((a 'outer)) (funcall (lambda (a)) 1) a)", "(progn (defun stub (a)) (stub 1) (stub 2) (boundp 'a))"]
     out += ["(dotimes (a) 1)", "(dotimes a 1)", "(dotimes (a 2 3 4) 1)", "(dotimes (a 2 . 3) 1)", "(dotimes (a . 2) 1)", "(dotimes)",
             "(dolist (a) 1)", "(dolist a 1)", "(dolist (a '(1) 3 4) 1)", "(dolist (a '(1) . 3) 1)", "(dolist (a . 2) 1)", "(dolist)",
             "(dotimes (a 2) . 5)", "(dolist (a '(1 2)) . 5)", "(let ((a 1)) . 5)", "(let* ((a 1)) . 5)", "(let ((a 1) . 5) 1)",
